@@ -310,13 +310,21 @@ class MarketRun:
         for name in ("get_market_prices", "get_mid_prices", "get_last_executed_prices",
                      "get_fundamental_prices", "get_executed_volumes", "get_executed_total_prices",
                      "get_n_buy_orders", "get_n_sell_orders"):
-            try:
-                getattr(m, name)(range(t - 1, t + 1))
-                out[name] = "returned"
-            except AssertionError:
-                out[name] = "refused"
-            except Exception as e:
-                out[name] = "other:" + type(e).__name__
+            # windows that reach into the future, in every shape an agent may pass: ascending and
+            # descending (latest-first) ranges, lists with the future time first / last / in the middle
+            lo = max(t - 3, 0)
+            shapes = {"": range(t - 1, t + 1) if t >= 1 else range(0, t + 1),
+                      "[desc-range]": range(t, lo - 1, -1), "[desc-range+1]": range(t + 1, lo - 1, -1),
+                      "[list-future-first]": [t, lo], "[list-future-last]": [lo, t],
+                      "[list-future-middle]": [lo, t, lo], "[tuple]": (t,), "[step-range]": range(lo, t + 2, 2) if (t + 1 - lo) % 2 == 0 else range(lo, t + 1, 1)}
+            for tag, times in shapes.items():
+                try:
+                    getattr(m, name)(times)
+                    out[name + tag] = "returned"
+                except AssertionError:
+                    out[name + tag] = "refused"
+                except Exception as e:
+                    out[name + tag] = "other:" + type(e).__name__
         return out
 
     def series_prefix(self):
@@ -344,6 +352,10 @@ def gen_history(rng, n_ops, profile=None):
         return gen_mkt2(rng, n_ops)
     tick = rng.choice([1.0, 1.0, 0.5, 0.25, 0.1, 0.01, 10.0])
     base = rng.choice([100.0, 300.0, 50.0, 1000.0])
+    if rng.random() < 0.12:
+        # fine grid: more than 1e9 ticks per price, so neighbouring price levels differ by less than
+        # 1e-9 relative (still exactly representable doubles)
+        tick, base = rng.choice([(1.0, 3e9), (1.0, 4e12), (0.01, 2.5e7), (0.5, 1e10)])
     cfg = {"tick": tick, "price": base, "fund0": base, "profile": profile}
     n_levels = rng.choice([2, 3, 5, 8])
     p_market = {"marketheavy": 0.4, "continuous": 0.1, "batch": 0.15, "mixed": 0.2, "deep": 0.05,
